@@ -25,13 +25,13 @@ template <class E> struct VecRun {
     }
     void verify(V& v, const std::vector<int>& m, const char* which) {
         const V& cv = v; const size_t n = cv.size(); const std::string w = which;
-        if (n != m.size()) { R.bad("size", w + ".size()=" + std::to_string(n) + " but iteration gives " + std::to_string(m.size()) + " elements"); R.stop = true; return; }
-        if (cv.empty() != m.empty()) R.bad("empty", w + ".empty() disagrees with size()");
-        if (cv.capacity() < n) R.bad("capacity", w + ".capacity() < size()");
-        for (size_t i = 0; i < n; ++i) if (E::id(cv[i]) != m[i]) { R.bad("index", w + "[" + std::to_string(i) + "] is " + std::to_string(E::id(cv[i])) + ", iteration gave " + std::to_string(m[i])); break; }
+        if (n != m.size()) { R.inconsistent("size", w + ".size()=" + std::to_string(n) + " but iteration gives " + std::to_string(m.size()) + " elements"); R.stop = true; return; }
+        if (cv.empty() != m.empty()) R.inconsistent("empty", w + ".empty() disagrees with size()");
+        if (cv.capacity() < n) R.inconsistent("capacity", w + ".capacity() < size()");
+        for (size_t i = 0; i < n; ++i) if (E::id(cv[i]) != m[i]) { R.inconsistent("index", w + "[" + std::to_string(i) + "] is " + std::to_string(E::id(cv[i])) + ", iteration gave " + std::to_string(m[i])); break; }
         if (n) {
-            if (E::id(cv.front()) != m.front() || E::id(v.front()) != m.front()) R.bad("front", w + ".front()");
-            if (E::id(cv.back()) != m.back() || E::id(v.back()) != m.back()) R.bad("back", w + ".back()");
+            if (E::id(cv.front()) != m.front() || E::id(v.front()) != m.front()) R.inconsistent("front", w + ".front()");
+            if (E::id(cv.back()) != m.back() || E::id(v.back()) != m.back()) R.inconsistent("back", w + ".back()");
         }
     }
     std::string stateOf(const V& v) const {
@@ -188,15 +188,15 @@ template <class E> struct ListRun {
     typename Base::iterator nth(L& l, size_t i) { typename Base::iterator it = l.begin(); while (i--) ++it; return it; }
     void verify(L& l, const std::vector<int>& m, const char* which) {
         const L& cl = l; const std::string w = which; const size_t n = cl.size();
-        if (n != m.size()) { R.bad("size", w + ".size()=" + std::to_string(n) + " but iteration gives " + std::to_string(m.size())); R.stop = true; return; }
-        if (cl.empty() != m.empty()) R.bad("empty", w + ".empty() disagrees with size()");
+        if (n != m.size()) { R.inconsistent("size", w + ".size()=" + std::to_string(n) + " but iteration gives " + std::to_string(m.size())); R.stop = true; return; }
+        if (cl.empty() != m.empty()) R.inconsistent("empty", w + ".empty() disagrees with size()");
         if (n) {
-            if (E::id(l.front()) != m.front()) R.bad("front", w + ".front()");
-            if (E::id(l.back()) != m.back()) R.bad("back", w + ".back()");
+            if (E::id(l.front()) != m.front()) R.inconsistent("front", w + ".front()");
+            if (E::id(l.back()) != m.back()) R.inconsistent("back", w + ".back()");
         }
         std::vector<int> rv; size_t guard = 0;
         for (typename Base::const_reverse_iterator it = cl.rbegin(); it != cl.rend(); ++it) { rv.push_back(E::id(*it)); if (++guard > 100000) break; }
-        if (rv != std::vector<int>(m.rbegin(), m.rend())) R.bad("reverse-iteration", w + " backwards is " + show(rv) + ", forwards " + show(m));
+        if (rv != std::vector<int>(m.rbegin(), m.rend())) R.inconsistent("reverse-iteration", w + " backwards is " + show(rv) + ", forwards " + show(m));
     }
     std::string stateOf(const L& l) const { return std::string(l.empty() ? "empty" : "non-empty") + (l.freeNonEmpty() ? "+free-list-nonempty" : "+free-list-empty"); }
     void after(const std::vector<int>& postA, const std::vector<int>* postB = 0) {
@@ -280,13 +280,13 @@ template <class E> struct DequeRun {
     }
     void verify(D& d, const std::vector<int>& m, const char* which) {
         const D& cd = d; const std::string w = which; const size_t n = cd.size();
-        if (n != m.size()) { R.bad("size", w + ".size()=" + std::to_string(n) + " but iteration gives " + std::to_string(m.size())); R.stop = true; return; }
-        if (cd.empty() != m.empty()) R.bad("empty", w + ".empty() is " + std::to_string(cd.empty()) + " with size() " + std::to_string(n));
-        for (size_t i = 0; i < n; ++i) if (E::id(cd[i]) != m[i] || E::id(d[i]) != m[i]) { R.bad("index", w + "[" + std::to_string(i) + "]"); break; }
-        if (n && E::id(d.back()) != m.back()) R.bad("back", w + ".back()");
+        if (n != m.size()) { R.inconsistent("size", w + ".size()=" + std::to_string(n) + " but iteration gives " + std::to_string(m.size())); R.stop = true; return; }
+        if (cd.empty() != m.empty()) R.inconsistent("empty", w + ".empty() is " + std::to_string(cd.empty()) + " with size() " + std::to_string(n));
+        for (size_t i = 0; i < n; ++i) if (E::id(cd[i]) != m[i] || E::id(d[i]) != m[i]) { R.inconsistent("index", w + "[" + std::to_string(i) + "]"); break; }
+        if (n && E::id(d.back()) != m.back()) R.inconsistent("back", w + ".back()");
         std::vector<int> rv; size_t guard = 0;
         for (typename D::const_reverse_iterator it = cd.rbegin(); it != cd.rend(); ++it) { rv.push_back(E::id(*it)); if (++guard > 100000) break; }
-        if (rv != std::vector<int>(m.rbegin(), m.rend())) R.bad("reverse-iteration", w + " backwards is " + show(rv) + ", forwards " + show(m));
+        if (rv != std::vector<int>(m.rbegin(), m.rend())) R.inconsistent("reverse-iteration", w + " backwards is " + show(rv) + ", forwards " + show(m));
     }
     std::string stateOf(const std::vector<int>& m, size_t bs) const { return m.empty() ? "empty" : (m.size() % bs == 0 ? "at-block-boundary" : "inside-block"); }
     void after(const std::vector<int>& postA, Shape shA, const std::vector<int>* postB = 0, Shape shB = ATOMIC) {
